@@ -1,12 +1,273 @@
-"""C38 -- Telnet application data is transparent: bounded stand-in (contracts/parts/C38_bounded.py); deductive contracts may be added later."""
-from contracts._parts import bounded, EXPLORATION_NOTE
+"""C38 -- Telnet carries application bytes transparently.
 
-CONTRACTS = []
+Deductive, byte by byte (every one of the 256 byte values, symbolically):
+
+  Step         Telnet.dataReceived on one byte in each of the six parser states, against the RFC 854 decoder table: the new
+               state, the application bytes handed over, the command / negotiation events -- nothing else;
+  EncodedByte  for every application byte b other than CR, the wire form enc(b) (IAC doubled, LF as CR LF, anything else
+               itself) delivered from the `data` state, in one call or cut between its two bytes: exactly b reaches the
+               application, the parser is back in `data`, no command or negotiation is seen;
+  WriteByte    TelnetTransport.write of one application byte puts exactly enc(b) on the wire.
+The parser keeps no state between bytes other than `state` (and the pending command / subnegotiation bytes), and
+bytes.replace with a one-byte pattern acts on every byte independently, so these per-byte facts compose to the
+statement for whole strings and arbitrary segmentation; that composition is explored (bounded tier), not proved.
+Bounded (contracts/parts/C38_bounded.py): real sender and receiver, write groupings, every 2- and 3-way wire split.
+"""
+from pyvc.api import *
+from pyvc import core
+from contracts._parts import bounded
+from twisted.conch import telnet
+from twisted.conch.telnet import IAC, SB, SE, WILL, WONT, DO, DONT
+
+M = "twisted.conch.telnet"
+CR, LF, NUL = b"\r", b"\n", b"\0"
+SIMPLE = (telnet.EOR, telnet.NOP, telnet.DM, telnet.BRK, telnet.IP, telnet.AO, telnet.AYT, telnet.EC, telnet.EL, telnet.GA)
+OPTION_COMMANDS = (WILL, WONT, DO, DONT)
+STATES = ("data", "escaped", "command", "newline", "subnegotiation", "subnegotiation-escaped")
+
+
+def ev(S, name):
+    return [e for e in S.trace if e.name == name]
+
+
+def rec(name):
+    def h(I, obj, *a, **kw):
+        ctx().emit(name, obj, tuple(list(x) if isinstance(x, list) else x for x in a), kw)
+    return h
+
+
+SUMMARIES = {"Telnet.applicationDataReceived": rec("app"), "Telnet.commandReceived": rec("command"), "Telnet.negotiate": rec("negotiate"),
+             "TelnetTransport.applicationDataReceived": rec("app")}
+
+
+def one_of(b, values):
+    r = False
+    for v in values:
+        r = bor(r, veq(b, v))
+    return r
+
+
+def delivered(S):
+    """the application bytes handed over, concatenated in order"""
+    out = b""
+    for e in ev(S, "app"):
+        out = out + e.args[0]
+    return out
+
+
+class _Parser(Contract):
+    prop = "C38"
+    module = M
+    differential = False
+    summaries = SUMMARIES
+
+    def parser(self, state, **extra):
+        return self.make(telnet.Telnet, **dict(vars(telnet.Telnet()), state=state, **extra))
+
+    def bounded_inputs(self, tier):
+        return iter(())
+
+
+class Step(_Parser):
+    function = "Telnet.dataReceived"
+    inputs = dict(b=Bytes(maxlen=1, minlen=1, small_len=1), state=OneOf(*STATES), command=OneOf(*OPTION_COMMANDS), pending=OneOf(0, 1))
+    calls = {"iterbytes": lambda I, d: [d[0:1]]}
+    trusted = ["iterbytes(data) yields the one-byte slices of data in order (a three-line generator)",
+               "applicationDataReceived / commandReceived / negotiate are recorded call-outs"]
+
+    def setup(self, i):
+        extra = {}
+        if i.state == "command":
+            extra["command"] = i.command
+        if i.state.startswith("subnegotiation"):
+            extra["commands"] = [b"x"][:i.pending]
+        t = self.parser(i.state, **extra)
+        return dict(self=t, args=[i.b], objs=dict(t=t), ghost=dict(pending=[b"x"][:i.pending]))
+
+    raises = {ValueError: lambda S: band(S.i.state == "escaped",
+                                         bnot(one_of(S.i.b, (IAC, SB) + SIMPLE + OPTION_COMMANDS)))}
+
+    def _table(S):
+        if S.exc is not None:
+            return len(S.trace) == 0
+        i, b, t = S.i, S.i.b, S.new.t
+        app, cmd, neg = ev(S, "app"), ev(S, "command"), ev(S, "negotiate")
+        out = delivered(S)
+        truth = S.ghost["$interp"].truth
+        st = i.state
+
+        def result(state, data=None, command=None, negotiated=None):
+            # data None: nothing is handed to the application by this byte
+            ok = band(t.state == state, len(app) == (0 if data is None else 1), True if data is None else veq(out, data))
+            ok = band(ok, len(cmd) == (0 if command is None else 1), len(neg) == (0 if negotiated is None else 1))
+            if command is not None:
+                ok = band(ok, veq(cmd[0].args[0], command[0]), cmd[0].args[1] is None if command[1] is None else veq(cmd[0].args[1], command[1]))
+            if negotiated is not None:
+                ok = band(ok, len(neg[0].args[0]) == len(negotiated), *[veq(x, y) for x, y in zip(neg[0].args[0], negotiated)])
+            return ok
+
+        if st == "data":
+            if truth(veq(b, IAC)):
+                return result("escaped")
+            if truth(veq(b, CR)):
+                return result("newline")
+            return result("data", b)
+        if st == "escaped":
+            if truth(veq(b, IAC)):
+                return result("data", IAC)
+            if truth(veq(b, SB)):
+                return band(result("subnegotiation"), t.commands == [])
+            if truth(one_of(b, SIMPLE)):
+                return result("data", command=(b, None))
+            return band(result("command"), veq(t.command, b))
+        if st == "command":
+            return result("data", command=(i.command, b))
+        if st == "newline":
+            if truth(veq(b, LF)):
+                return result("data", LF)
+            if truth(veq(b, NUL)):
+                return result("data", CR)
+            if truth(veq(b, IAC)):
+                return result("escaped", CR)
+            return result("data", CR + b)
+        pending = S.ghost["pending"]
+        if st == "subnegotiation":
+            if truth(veq(b, IAC)):
+                return band(result("subnegotiation-escaped"), len(t.commands) == len(pending))
+            return band(result("subnegotiation"), len(t.commands) == len(pending) + 1, veq(t.commands[-1], b))
+        if truth(veq(b, SE)):
+            return result("data", negotiated=pending)
+        return band(result("subnegotiation"), len(t.commands) == len(pending) + 1, veq(t.commands[-1], b))
+
+    ensures = dict(rfc854_decoder_table=_table)
+    canaries = [("                elif b == b\"\\0\":\n                    appDataBuffer.append(b\"\\r\")", "                elif b == b\"\\0\":\n                    pass", "rfc854_decoder_table"),
+                ("                if b == IAC:\n                    appDataBuffer.append(b)\n                    self.state = \"data\"",
+                 "                if b == IAC:\n                    self.state = \"data\"", "rfc854_decoder_table")]
+
+
+def enc(b, truth):
+    """wire form of one application byte (not CR)"""
+    if truth(veq(b, IAC)):
+        return [IAC, IAC]
+    if truth(veq(b, LF)):
+        return [CR, LF]
+    return [b]
+
+
+class EncodedByte(_Parser):
+    function = "Telnet.dataReceived"
+    inputs = dict(b=Bytes(maxlen=1, minlen=1, small_len=1), split=ForkBool())
+    calls = {"iterbytes": lambda I, d: [d[k:k + 1] for k in range(len(d) if not is_sym(d) else ctx().ghost["n"])]}
+    trusted = Step.trusted
+
+    def requires(self, i):
+        return bnot(veq(i.b, CR))  # the property speaks of application data without carriage returns
+
+    def setup(self, i):
+        t = self.parser("data")
+        g = dict(n=1)
+
+        def drive(call):
+            truth = ctx().ghost["$interp"].truth
+            wire = enc(i.b, truth)
+            if i.split and len(wire) == 2:
+                for piece in wire:
+                    g["n"] = 1
+                    ctx().ghost["n"] = 1
+                    call(t, "dataReceived", piece)
+            else:
+                whole = wire[0] if len(wire) == 1 else wire[0] + wire[1]
+                ctx().ghost["n"] = len(wire)
+                call(t, "dataReceived", whole)
+        return dict(drive=drive, objs=dict(t=t), ghost=g)
+
+    raises = ()
+    ensures = dict(exactly_the_byte_arrives_and_the_parser_is_back_in_data=lambda S: band(
+        veq(delivered(S), S.i.b), S.new.t.state == "data", len(ev(S, "command")) == 0, len(ev(S, "negotiate")) == 0))
+    canaries = [("                if b == b\"\\n\":\n                    appDataBuffer.append(b\"\\n\")", "                if b == b\"\\n\":\n                    appDataBuffer.append(b\"\\r\\n\")",
+                 "exactly_the_byte_arrives_and_the_parser_is_back_in_data")]
+
+
+class WriteByte(Contract):
+    prop = "C38"
+    module = M
+    function = "TelnetTransport.write"
+    also = ["ProtocolTransportMixin.write"]
+    differential = False
+    calls = {"wire.write": rec("wire.write")}
+    inputs = dict(b=Bytes(maxlen=1, minlen=1, small_len=1))
+    trusted = ["the underlying transport is a recorded call-out",
+               "bytes.replace on a one-byte value substitutes the byte if it is the pattern (exact for one byte)"]
+
+    def requires(self, i):
+        return bnot(veq(i.b, CR))
+
+    def setup(self, i):
+        t = self.make(telnet.TelnetTransport, **dict(vars(telnet.TelnetTransport()), transport=self.opaque("wire")))
+        return dict(self=t, args=[i.b], objs=dict(t=t))
+
+    def bounded_inputs(self, tier):
+        return iter(())
+
+    raises = ()
+
+    def _wire(S):
+        w = ev(S, "wire.write")
+        if len(w) != 1 or len(S.trace) != 1:
+            return False
+        truth = S.ghost["$interp"].truth
+        parts = enc(S.i.b, truth)
+        want = parts[0] if len(parts) == 1 else parts[0] + parts[1]
+        return veq(w[0].args[0], want)
+
+    ensures = dict(exactly_the_wire_form_is_written=_wire)
+    canaries = [("ProtocolTransportMixin.write(self, data.replace(b\"\\xff\", b\"\\xff\\xff\"))", "ProtocolTransportMixin.write(self, data)", "exactly_the_wire_form_is_written")]
+
+
+class WriteSequenceByte(WriteByte):
+    """writeSequence escapes exactly as write does (seeded change C38-1 and the repaired defect 71ab703)"""
+    function = "TelnetTransport.writeSequence"
+    also = ["TelnetTransport.write", "ProtocolTransportMixin.write"]
+    calls = {"wire.write": rec("wire.write"), "wire.writeSequence": rec("wire.writeSequence")}
+
+    def setup(self, i):
+        t = self.make(telnet.TelnetTransport, **dict(vars(telnet.TelnetTransport()), transport=self.opaque("wire")))
+        return dict(self=t, args=[[i.b]], objs=dict(t=t))
+
+    def _wire(S):
+        w = ev(S, "wire.write") + ev(S, "wire.writeSequence")
+        if len(w) != 1 or len(S.trace) != 1:
+            return False
+        got = w[0].args[0]
+        if isinstance(got, (list, tuple)):
+            whole = b""
+            for p in got:
+                whole = whole + p
+            got = whole
+        truth = S.ghost["$interp"].truth
+        parts = enc(S.i.b, truth)
+        want = parts[0] if len(parts) == 1 else parts[0] + parts[1]
+        return veq(got, want)
+
+    ensures = dict(exactly_the_wire_form_is_written=_wire)
+    canaries = [("self.write(b\"\".join(seq))", "self.transport.writeSequence(seq)", "exactly_the_wire_form_is_written")]
+
+
+CONTRACTS = [Step, EncodedByte, WriteByte, WriteSequenceByte]
 BOUNDED = bounded("C38")
-NOTES = dict(explanation='a real TelnetTransport sender and receiver: every grouping of short CR-free byte strings (with IAC, LF, command bytes) into write / writeSequence calls, every 2- and 3-way split of the wire; oracle: RFC 854 (IAC doubled, LF as CR LF, no command seen by the peer, bytes equal)', not_covered=["deductive contracts on the anchored functions (not built)"])
+_SCOPE = ('a real TelnetTransport sender and receiver: every grouping of short CR-free byte strings (with IAC, LF, command bytes) into write / writeSequence calls, every 2- and 3-way split of the wire; oracle: RFC 854 (IAC doubled, LF as CR LF, no command seen by the peer, bytes equal)')
+NOTES = dict(explanation="decoder step, wire form of every byte and the writer proved byte by byte for all 256 values; strings and segmentations bounded: " + _SCOPE,
+             not_covered=["the composition of the per-byte facts over whole strings (the parser loop keeps only `state` between bytes; "
+                          "bytes.replace with a one-byte pattern is bytewise): explored in the bounded tier, not proved",
+                          "writeSequence (joins and calls write), subnegotiation payloads, application data containing CR"])
 MANIFEST = dict(
-    category="exploration",
-    text="Bounded stand-in only, on the real code: " + 'a real TelnetTransport sender and receiver: every grouping of short CR-free byte strings (with IAC, LF, command bytes) into write / writeSequence calls, every 2- and 3-way split of the wire; oracle: RFC 854 (IAC doubled, LF as CR LF, no command seen by the peer, bytes equal)' + ".",
-    note=EXPLORATION_NOTE,
-    technique="bounded exhaustive evaluation of an executable contract on the real code (stand-in; not proved)",
+    category="proof",
+    text="For every byte value: Telnet.dataReceived on one byte agrees with the RFC 854 decoder table in each of its six states "
+         "(new state, application bytes, command / negotiation events, ValueError exactly for an unknown command byte); the "
+         "wire form of every application byte other than CR (IAC doubled, LF as CR LF) delivered from the data state, whole or "
+         "cut between its two bytes, hands exactly that byte to the application, returns to the data state and triggers no "
+         "command; TelnetTransport.write of one byte puts exactly that wire form on the transport.  That these per-byte facts "
+         "compose over whole strings, write groupings and segmentations is exercised in the bounded tier only: " + _SCOPE + ".",
+    note="Trusted: pyvc, SMT solvers, iterbytes, call-outs.  Everything else: bounded, never counted as proved.",
+    technique="contract-based deductive verification (complete symbolic case analysis per byte and parser state, SMT) + bounded exhaustive strings and wire splits",
 )
